@@ -101,13 +101,16 @@ def find_function(toks, name, scope=None, params_re=None, ordinal=None):
             j = rp + 1
             while j < hi and toks[j].text in ('const', 'noexcept', 'override', 'final'):
                 j += 1
+                if toks[j - 1].text == 'noexcept' and j < hi and toks[j].text == '(':    # noexcept(expr)
+                    j = match_close(toks, j) + 1
             if j < hi and toks[j].text == '->':          # trailing return type
                 while j < hi and toks[j].text not in ('{', ';'):
                     j += 1
             if j < hi and toks[j].text == ':' and scope and name == scope.split('::')[-1]:
-                # constructor initialiser list
-                while j < hi and toks[j].text != '{':
-                    if toks[j].text == '(':
+                # constructor initialiser list: `m(e)` or `m{e}` items; the body brace follows a closing ')' or '}'
+                j += 1
+                while j < hi and not (toks[j].text == '{' and toks[j - 1].text in (')', '}')):
+                    if toks[j].text in ('(', '{'):
                         j = match_close(toks, j)
                     j += 1
             if j < hi and toks[j].text == '{':
@@ -279,9 +282,12 @@ class Env:
         ty = self.vars.get(name)
         return bool(ty) and (ty.startswith('ref ') or ty.startswith('ptr '))
 
+    def chain_key(self, toks):
+        key = ''.join(t.text for t in toks).replace(' ', '')
+        return re.sub(r'^\(\*([A-Za-z_]\w*)\)', r'\1', key)
+
     def chain_type(self, toks):
-        key = ''.join(t.text for t in toks)
-        return self.vars.get(key)
+        return self.vars.get(self.chain_key(toks))
 
     def receivers_forward(self, toks, i):
         """yield (end, basetype) for typed receivers starting at i, longest first"""
@@ -293,6 +299,10 @@ class Env:
                 res.append((i + 1, self.base(toks[i].ctype)))
             # expr followed by .field chain
             j = i + 1
+            if not re.match(r'^\(\*[A-Za-z_]\w*\)$', toks[i].text):
+                for r in res:
+                    yield r
+                return
         elif toks[i].kind == 'id':
             j = i + 1
             if self.chain_type(toks[i:j]):
@@ -324,7 +334,7 @@ class Env:
             if toks[j].kind == 'expr':
                 break
         for s in reversed(starts):              # longest first
-            if toks[s].kind == 'expr':
+            if toks[s].kind == 'expr' and not re.match(r'^\(\*[A-Za-z_]\w*\)$', toks[s].text):
                 continue
             if s - 1 >= 0 and toks[s - 1].text in ('.', '->', '::'):
                 continue
@@ -342,7 +352,7 @@ class Env:
             m = re.match(r'^\(\*\s*(.*)\)$', txt, re.S)
             if m and _balanced(m.group(1)):
                 return m.group(1)
-        key = ''.join(t.text for t in toks)
+        key = self.chain_key(toks)
         ty = self.vars.get(key)
         if ty and (ty.startswith('ref ') or ty.startswith('ptr ')) and len(toks) > 1:
             return txt              # a pointer-typed field
@@ -914,7 +924,9 @@ class Rewriter:
                     cbody = self._exc_linear(t[cb_l + 1:cb_r], dflt, maythrow, None)
                     CL = t[j].line
                     if len(decl) == 1 and decl[0].text == '...':
-                        cond = lex('1')
+                        # not the constant 1: a constant-condition branch inside a loop makes
+                        # --apply-loop-contracts abort ("incoming edge from outside the loop"), same as R12
+                        cond = lex('IORA_TRUE')
                         catchall = True
                     else:
                         tys = [y.text for y in decl if y.kind == 'id' and y.text not in ('const', 'std')]
@@ -1094,6 +1106,7 @@ class Rewriter:
         t = self.p_enums(t)
         t = self.p_drops(t)
         t = self.p_decls(t)
+        t = self.p_refs(t)
         t = self.p_members(t)
         t = self.hook('hook_mid', t)
         t = self.p_rules(t, 'mid')
@@ -1101,7 +1114,6 @@ class Rewriter:
         t = self.p_rules(t, 'post')
         t = self.p_exceptions(t)
         t = self.p_returns(t)
-        t = self.p_refs(t)
         t = self.hook('hook_before_loops', t)
         t = self.p_loops(t)
         t = self.p_rules(t, 'final')
@@ -1313,6 +1325,9 @@ def extract_unit(repo, unit, shim_methods):
             c = {"name": c}
         toks, _ = toks_of(c.get('file', default_file))
         parts.append(extract_constant(toks, c['name'], c.get('cname', c['name']), R, c.get('scope')))
+    for sa in unit.get('static_asserts', []):
+        toks, _ = toks_of(sa.get('file', default_file))
+        parts.append(extract_static_asserts(toks, sa['scope'], sa['cname'], R))
     parts.append('#include "pre.h"\n')
 
     protos = []
@@ -1337,6 +1352,8 @@ def extract_unit(repo, unit, shim_methods):
         body = toks[lb + 1:rb]
         if fn.get('block'):
             body = cut_block(body, fn['block'], fn['name'])
+        if fn.get('ctor_init'):
+            body = ctor_init_assignments(toks, rp, lb, fn.get('scope'), fn['name']) + body
         rw = Rewriter(unit, fn, shim_methods, R)
         c = rw.rewrite(body)
         R.sources.append({"what": f"function {fn.get('scope') or ''}::{fn['name']}", "file": path,
@@ -1349,6 +1366,73 @@ def extract_unit(repo, unit, shim_methods):
     parts += bodies
     parts.append('#include "post.c"\n')
     return '\n'.join(parts), R.as_dict()
+
+
+def extract_static_asserts(toks, scope, cname, report):
+    """every `static_assert(cond, "msg");` directly in class `scope` -> #define cname ((c1) && (c2) ...)
+    (the admissible template arguments of a class template: a symbolic parameter is constrained by exactly these)"""
+    lo, hi = find_scope(toks, scope)
+    conds = []
+    i = lo
+    while i < hi:
+        x = toks[i]
+        if x.kind not in ('str', 'chr') and x.text == '{':
+            i = match_close(toks, i) + 1       # skip member function bodies / nested classes
+            continue
+        if x.kind == 'id' and x.text == 'static_assert' and toks[i + 1].text == '(':
+            rp = match_close(toks, i + 1)
+            inner = toks[i + 2:rp]
+            # the optional message is a trailing string literal after the last top-level comma ('<' / '>' are operators here)
+            if len(inner) >= 2 and inner[-1].kind == 'str' and inner[-2].text == ',':
+                inner = inner[:-2]
+            txt = text_of(inner)
+            txt = re.sub(r'std\s*::\s*', '', txt)
+            conds.append(txt)
+            report.sources.append({"what": f"static_assert in {scope}", "line": x.line, "value": txt})
+            i = rp
+        i += 1
+    if not conds:
+        raise ExtractionBreak(f"no static_assert found in scope {scope}")
+    report.fire('Rsassert', len(conds))
+    return f"#define {cname} (" + ' && '.join(f"({c})" for c in conds) + ")\n"
+
+
+def ctor_init_assignments(toks, rp, lb, scope, name):
+    """constructor member-initialiser list `: m1(e1), m2{e2}` -> `m1 = e1; m2 = e2;` (prepended to the body).
+    C++ initialises in member DECLARATION order, not list order: the two orders must agree, else exit 2."""
+    j = rp + 1
+    while j < lb and toks[j].text != ':':
+        j += 1
+    if j >= lb:
+        return []
+    items = split_params(toks[j + 1:lb])
+    out = []
+    names = []
+    for it in items:
+        if len(it) < 3 or it[0].kind != 'id' or it[1].text not in ('(', '{') or it[-1].text not in (')', '}'):
+            raise ExtractionBreak(f"{name}: initialiser list item outside the subset: {text_of(it)}")
+        inner = it[2:-1]
+        if not inner:
+            raise ExtractionBreak(f"{name}: value-initialised member `{it[0].text}` in initialiser list is outside the subset")
+        L = it[0].line
+        out += [Tok('id', it[0].text, L), Tok('op', '=', L)] + list(inner) + [Tok('op', ';', L)]
+        names.append(it[0].text)
+    if scope:
+        lo, hi = find_scope(toks, scope)
+        pos = {}
+        i = lo
+        while i < hi:
+            x = toks[i]
+            if x.kind not in ('str', 'chr') and x.text == '{' and not (toks[i - 1].kind == 'id' and toks[i - 1].text in names and toks[i - 2].text != ','):
+                i = match_close(toks, i) + 1
+                continue
+            if x.kind == 'id' and x.text in names and toks[i + 1].text in (';', '=', '{') and toks[i - 1].text not in ('.', '->', ':', ',', '(', 'return'):
+                pos.setdefault(x.text, i)
+            i += 1
+        order = [pos.get(n) for n in names]
+        if any(o is None for o in order) or order != sorted(order):
+            raise ExtractionBreak(f"{name}: initialiser list order differs from member declaration order (or a member declaration was not found): {names}")
+    return out
 
 
 def cut_block(body, spec, name):
@@ -1373,4 +1457,10 @@ def cut_block(body, spec, name):
     if not b:
         raise ExtractionBreak(f"{name}: block end anchor not found: {spec['last']}")
     e = b[spec.get('last_ordinal', 0)] + len(last)
-    return body[s:e]
+    out = body[s:e]
+    if spec.get('append'):
+        extra = lex(spec['append'])
+        for y in extra:
+            y.line = body[e - 1].line
+        out = out + extra
+    return out
